@@ -16,7 +16,7 @@ RULE = ('cases = workload of 1-8 tasks in 1-2 bulks (exit codes, optional input 
         'most one of: client input staging error, agent input staging error, no launcher, script creation / '
         'launch-output / spawn error, non-zero exit, injected exception inside a per-task handler of tmgr scheduler / '
         'tmgr staging in / agent staging in / executor / agent staging out / tmgr staging out, output staging error) '
-        'x optional cancel requests x order in which the pipeline stages are polled; oracle at quiescence: every task '
+        'x optional cancel requests x optional late pilot addition with tasks naming the pilot x order in which the pipeline stages are polled; oracle at quiescence: every task '
         'final, exactly one final state announced = Task.state, DONE iff exit 0 and no fault, FAILED with exit code or '
         'exception recorded for faults / non-zero exit, CANCELED only if requested, fault-free tasks DONE, and a second '
         'fault-free workload completes afterwards.  non-trivial = >=1 fault or cancel AND >=1 fault-free bystander in '
@@ -55,10 +55,15 @@ def task_spec(draw):
 @st.composite
 def cases(draw):
     ops = []
-    nb = draw(st.integers(1, 2))
+    late = draw(st.integers(0, 3)) == 0      # the pilot is added after (some of) the submissions
+    nb = draw(st.integers(1, 3 if late else 2))
     n = 0
     for b in range(nb):
         bulk = draw(st.lists(task_spec(), min_size=1, max_size=5))
+        if late:
+            for sp in bulk:
+                if draw(st.integers(0, 2)) > 0:
+                    sp['named'] = True        # names the (not yet added) pilot
         n += len(bulk)
         ops.append(['submit', bulk])
         k = draw(st.integers(0, 3))
@@ -68,7 +73,9 @@ def cases(draw):
             ops.append(['pump'])
         if draw(st.integers(0, 3)) == 0:
             ops.append(['cancel', draw(st.lists(st.integers(0, n - 1), min_size=1, max_size=2))])
-    return {'kind': 'pipe', 'ops': ops,
+        if late and draw(st.integers(0, 2)) == 0:
+            ops.append(['add_pilot'])
+    return {'kind': 'pipe', 'late_add': late, 'ops': ops,
             'order': draw(st.lists(st.integers(0, 8), max_size=15)),
             'layout': {'nodes': draw(st.integers(1, 3)), 'cores': draw(st.sampled_from([2, 4, 8])),
                        'gpus': 0, 'lfs': 0, 'mem': 0}}
@@ -122,6 +129,10 @@ def run_case(case):
             res.label('fault=%s' % (s.get('fault') or ('exit_nonzero' if s.get('exit') else 'none')))
     if sim.cancel_req:
         res.label('cancel')
+    if case.get('late_add'):
+        res.label('pilot_added_after_submission')
+        if sum(1 for b in bulks if any(s.get('named') for s in b)) >= 2:
+            res.label('named_tasks_in_2+_bulks_before_add')
     for t in sim.tasks:
         res.label('final=%s' % t.state)
     return res
